@@ -25,7 +25,8 @@ from .gitsim import Sim, REALGIT
 GEN_FILES = ["GenIngest"]
 DRIVERS = ["ingest"]
 THEOREMS = ["C20_status0", "C20_never_panics", "C20_status0_refuted", "C20_exit_table_zero", "C20_routing",
-            "C20_orphans_ignored", "C20_no_escape", "C20_failed_pass_records_nothing", "C20_lexical_escape", "C20_dotdot_to_root",
+            "C20_orphans_ignored", "C20_no_escape", "C20_in_wd_componentwise", "C20_sibling_not_inside",
+            "C20_recorded_componentwise", "C20_failed_pass_records_nothing", "C20_lexical_escape", "C20_dotdot_to_root",
             "C20_decoder_total", "C20_decoder_ok_shape", "C20_decoder_rejects",
             "C20_complete_file_based", "C20_complete_primary", "C20_complete_external",
             "C20_nested_complete_refuted", "C20_listed_request_never_scans_all", "C20_foreign_request_records_nothing",
@@ -52,7 +53,7 @@ CLAIM = {
 TRUSTED_BASE = [
     "Coq 8.16.1 kernel; theorems closed under the global context",
     "tools/gen/GenIngest.py (exit statuses, preset dispatch, serde shapes, panic-site scan)",
-    "extraction (ExtrOcamlBasic) + coq/Extract/d_ingest.ml",
+    "extraction (ExtrOcamlBasic) + coq/Extract/d_ingest.ml; harness/src/p_c20.rs (path_is_in_workdir in-process)",
     "vlib/c20.py: world builder, independent innermost-repository oracle, working-log reader; vlib/gitsim.py (env pinning)",
     "modelled not verified: serde_json text parsing (recursion limit, UTF-8), git status / rev-parse, std::fs::canonicalize, clap",
 ]
@@ -703,6 +704,11 @@ def safety_check(W, new):
         want = W.innermost(real)
         if want != repo:
             bad.append(f"{f!r} recorded in repository {repo} but {real} belongs to {want}")
+        elif not os.path.lexists(real):
+            # a deleted tracked file is a legitimate entry; a path that never existed in this repository is not
+            rc, _ = W.g("cat-file", "-e", "HEAD:" + os.path.relpath(real, W.repos[repo]["workdir"]), cwd=W.repos[repo]["workdir"])
+            if rc != 0:
+                bad.append(f"{f!r} recorded in repository {repo}: no such file there (neither in the work tree nor in HEAD)")
     return bad
 
 
@@ -1073,6 +1079,81 @@ def layout_case(args):
         shutil.rmtree(W.root, ignore_errors=True)
 
 
+# ------------------------------------------------------------------ E. path_is_in_workdir in-process (harness) vs the model
+SIBLINGS = ["proj", "proj-docs", "proj2", "pro", "proj.d", "Proj"]
+
+
+def inwd_cases(args):
+    """(workdir, path) pairs over sibling repositories whose names are string prefixes of each other"""
+    base, seed, n = args
+    r = C.Rng(seed).fork("c20-inwd")
+    sim = Sim(base, "inwd")
+    root = os.path.realpath(sim.base)
+    ws = os.path.join(root, "ws")
+    for name in SIBLINGS:
+        d = os.path.join(ws, name)
+        os.makedirs(os.path.join(d, "sub"), exist_ok=True)
+        subprocess.run([REALGIT, "init", "-q", d], env=sim.env(), stdout=subprocess.DEVNULL, stderr=subprocess.DEVNULL)
+        _w(os.path.join(d, "f.txt"), "f\n")
+        _w(os.path.join(d, "sub", "g.txt"), "g\n")
+    _w(os.path.join(ws, "plain", "p.txt"), "p\n")
+    os.symlink("proj", os.path.join(ws, "link_to_proj"))
+    os.symlink("../proj-docs", os.path.join(ws, "proj", "lnk_out"))
+    os.symlink("../proj/sub", os.path.join(ws, "proj-docs", "lnk_in"))
+    os.symlink("../../proj2/f.txt", os.path.join(ws, "proj", "sub", "lnk_file"))
+    names = SIBLINGS + ["plain", "link_to_proj", "projX", "proj-", "pr"]
+    tails = ["f.txt", "sub/g.txt", "sub", "", "ghost.txt", "sub/ghost/deep.txt", "lnk_out/f.txt", "lnk_in/g.txt", "sub/lnk_file",
+             "sub/../f.txt", "../proj-docs/f.txt", "../proj/f.txt", "../proj2/../proj/sub/g.txt", "nodir/../f.txt", "./f.txt",
+             "sub//g.txt", "sub/", ".git/config", "..", "../..", "f.txt/", "f.txt/x"]
+    cases = []
+    for k in range(n):
+        repo = r.pick(SIBLINGS)
+        nm = r.pick(names)
+        tail = r.pick(tails)
+        form = r.weighted([(60, "abs"), (15, "rel"), (10, "slashes"), (10, "detour"), (5, "root")])
+        p = os.path.join(ws, nm, tail) if tail else os.path.join(ws, nm)
+        if form == "rel":
+            # relative to the harness cwd (= ws); the callers always join first, so only existing relative paths
+            # (canonicalised by the function itself) are meaningful
+            if os.path.exists(p):
+                p = os.path.join(nm, tail) if tail else nm
+        elif form == "slashes":
+            p = p.replace("/" + nm, "//" + nm + "/.", 1) + r.pick(["", "/", "//"])
+        elif form == "detour":
+            p = os.path.join(ws, r.pick(names), "..", nm, tail)
+        elif form == "root":
+            p = r.pick(["/", "/etc/hostname", ws, ws + "/", root, ""])
+        cases.append((repo, p))
+    impl_in, model_in = [], []
+    for i, (repo, p) in enumerate(cases):
+        rd = os.path.join(ws, repo)
+        impl_in.append((str(i), C.sx(C.cps(rd)) + " " + C.sx(C.cps(p))))
+        raw = absolutize(comps(ws), p)
+        try:
+            sp = p if os.path.isabs(p) else os.path.join(ws, p)       # as written: `file.txt/` does not exist
+            if p and os.path.isdir(sp):
+                st = f"(dir {sx_path(comps(os.path.realpath(sp)))})"
+            elif p and os.path.exists(sp):
+                st = f"(file {sx_path(comps(os.path.realpath(sp)))})"
+            else:
+                st = "missing"
+        except (OSError, ValueError):
+            st = "missing"
+        model_in.append((str(i), f"({sx_path(comps(rd))} normal) {st} {sx_raw(raw)}"))
+    p = subprocess.run([C.VHARNESS, "c20-inwd"], cwd=ws, env=sim.env(), input="".join(f"{i}\t{b}\n" for i, b in impl_in),
+                       stdout=subprocess.PIPE, stderr=subprocess.DEVNULL, text=True)
+    impl = dict(l.split("\t", 1) for l in p.stdout.splitlines() if "\t" in l)
+    # independent expectation: component-wise containment of the resolved location
+    exp = {}
+    for i, (repo, pth) in enumerate(cases):
+        rd = os.path.join(ws, repo)
+        a = pth if os.path.isabs(pth) else os.path.join(ws, pth)
+        res = os.path.realpath(a) if (pth and os.path.exists(a)) else os.path.normpath(a)
+        exp[str(i)] = "1" if (res == rd or res.startswith(rd + os.sep)) else "0"
+    shutil.rmtree(sim.base, ignore_errors=True)
+    return {"cases": [(repo, pth) for repo, pth in cases], "impl": impl, "model_in": model_in, "expected": exp}
+
+
 # ------------------------------------------------------------------ hook-argument variants: status / panic vs the model
 def hook_variants(args):
     base, seed = args
@@ -1271,6 +1352,22 @@ def run(ctx):
                 violations.append((f"hook variant {x['hook'][:30]} with preset {x['preset']}: exit {x['rc']}", {"kind": "hook-variant", **x}))
     obligations.append(("tie:correspondence exit status for every --hook-input form x preset", ctx.model_ok and not hv_mis, "; ".join(hv_mis[:3])))
 
+    # ---- E. path_is_in_workdir: real function (in-process) vs model vs independent expectation
+    iw = inwd_cases((base, ctx.seed, 600 if quick else 20000))
+    iw_mis, iw_bad = [], 0
+    im = C.run_cases(C.driver_path("ingest"), "c20-inwd", iw["model_in"]) if ctx.model_ok else {}
+    for i, (repo, pth) in enumerate(iw["cases"]):
+        a, e = iw["impl"].get(str(i)), iw["expected"][str(i)]
+        if a != e:
+            iw_bad += 1
+            violations.append((f"path_is_in_workdir(work dir {repo!r}, {pth!r}) = {a}, component-wise containment says {e}",
+                               {"kind": "path_is_in_workdir", "workdir": "ws/" + repo, "path": pth, "impl": a, "expected": e,
+                                "siblings": SIBLINGS}))
+        if ctx.model_ok and im.get(str(i)) != a:
+            iw_mis.append(f"work dir {repo!r} path {pth!r}: model {im.get(str(i))} impl {a}")
+    obligations.append(("tie:correspondence path_is_in_workdir (harness, in-process) vs Model/Ingest.v in_wd on sibling-name pairs",
+                        ctx.model_ok and not iw_mis, "; ".join(iw_mis[:3])))
+
     # ---- B. payload matrix
     reps = 1 if quick else 12
     items = [(base, ctx.seed, k * 100 + i, p, 50) for k in range(reps) for i, p in enumerate(PRESETS)]
@@ -1356,7 +1453,7 @@ def run(ctx):
             violations.append((f"regression: {FIXED[k]}", {"kind": "fixed-witness", "class": "C20-" + k,
                                                                                   "what": FIXED[k]}))
 
-    evaluations = len(dec) + len(hv) + mx_runs + len(ok) + len(KNOWN) + len(FIXED)
+    evaluations = len(dec) + len(hv) + mx_runs + len(ok) + len(KNOWN) + len(FIXED) + len(iw['cases'])
     return {
         "obligations": obligations,
         "violations": violations,
